@@ -405,6 +405,235 @@ pub fn exec_router(case: &RouterCase) -> Outcome {
     out
 }
 
+// ---- the production writer of shard records: a split's cut-over, racing a correct updater ------------
+
+/// One replica re-assignment of the old shard by another node: read the record, replace the
+/// replica list by a marker, write it back under the generation that was read; on a stale
+/// rejection start over from a fresh read (what a correct writer does).
+#[derive(Clone, Debug, Serialize, Deserialize)]
+pub struct Reassign {
+    /// the update starts once the split has had this many of its requests served (or has ended)
+    pub delay: u8,
+}
+
+#[derive(Clone, Debug, Serialize, Deserialize)]
+pub struct WriterCase {
+    pub data: crate::props::c14::Dataset,
+    pub updates: Vec<Reassign>,
+    pub schedule: Vec<u16>,
+}
+
+#[derive(Clone, Debug, PartialEq)]
+struct Obs {
+    generation: u64,
+    replicas: Vec<String>,
+    state: String,
+}
+
+fn obs_of(m: &ShardMetadata) -> Obs {
+    Obs {
+        generation: m.generation,
+        replicas: m.replicas.iter().map(|r| r.node_id.clone()).collect(),
+        state: match &m.state {
+            ShardState::Active => "Active".into(),
+            ShardState::Splitting { .. } => "Splitting".into(),
+            ShardState::PendingDeletion { .. } => "PendingDeletion".into(),
+            #[allow(unreachable_patterns)]
+            other => format!("{:?}", other),
+        },
+    }
+}
+
+pub fn exec_split_writer(case: &WriterCase) -> Outcome {
+    use crate::props::c14::{run_split, World, OLD};
+    const UPDATER: u32 = 20;
+    let rt = rt_paused();
+    rt.block_on(async {
+        let mut out = Outcome::pass();
+        let w = match World::build(&case.data).await {
+            Ok(w) => Arc::new(w),
+            Err(e) => {
+                out.set_fail("build-failed", e);
+                return out;
+            }
+        };
+        let core = w.core.clone();
+        core.set_gate_nodes(Some((1u32..=8).chain([UPDATER]).collect()));
+        core.set_scheduled(true);
+        // task A: the split, then resumes (fresh splitter each) until it reports completion
+        let split_log: Arc<parking_lot::Mutex<Vec<String>>> = Arc::new(parking_lot::Mutex::new(Vec::new()));
+        let a = {
+            let w = w.clone();
+            let split_log = split_log.clone();
+            tokio::spawn(async move {
+                let mut node = 1u32;
+                let mut r = run_split(&w, node, false).await;
+                for _ in 0..6 {
+                    match &r {
+                        Ok(Ok(_)) => {
+                            split_log.lock().push("ok".into());
+                            break;
+                        }
+                        Ok(Err(e)) => split_log.lock().push(e.clone()),
+                        Err(()) => split_log.lock().push("hang".into()),
+                    }
+                    node += 1;
+                    r = run_split(&w, node, true).await;
+                }
+            })
+        };
+        // task B: the updater
+        let committed: Arc<parking_lot::Mutex<Vec<String>>> = Arc::new(parking_lot::Mutex::new(Vec::new()));
+        let b = {
+            let w = w.clone();
+            let core = core.clone();
+            let updates = case.updates.clone();
+            let committed = committed.clone();
+            tokio::spawn(async move {
+                let md = w.md(UPDATER);
+                for (k, u) in updates.iter().enumerate() {
+                    // parked until the split has had `delay` of its requests served (the chooser below holds it back)
+                    let _ = core.gated(ReqDesc { node: UPDATER, op: OpKind::Pause, path: format!("updater:wait:{}", u.delay), detail: String::new() }, || async {}).await;
+                    let marker = format!("node-m{}", k);
+                    for _attempt in 0..8 {
+                        let cur = match md.get_shard_metadata(OLD).await {
+                            Ok(Some(m)) => m,
+                            _ => break,
+                        };
+                        let mut next = cur.clone();
+                        next.replicas = vec![cardinalsin::sharding::ReplicaInfo { replica_id: format!("r-{}", k), node_id: marker.clone(), is_leader: true }];
+                        match md.update_shard_metadata(OLD, &next, cur.generation).await {
+                            Ok(()) => {
+                                committed.lock().push(marker.clone());
+                                break;
+                            }
+                            Err(cardinalsin::Error::StaleGeneration { .. }) => continue,
+                            Err(_) => break,
+                        }
+                    }
+                }
+            })
+        };
+        let handles = vec![a, b];
+        // one scheduling step at a time; the old shard's record is observed after every step
+        let mut seen: Vec<Obs> = Vec::new();
+        let observe = |seen: &mut Vec<Obs>, m: Option<ShardMetadata>| {
+            if let Some(m) = m {
+                let o = obs_of(&m);
+                if seen.last() != Some(&o) {
+                    seen.push(o);
+                }
+            }
+        };
+        observe(&mut seen, w.md(97).get_shard_metadata(OLD).await.ok().flatten());
+        let mut pos = 0usize;
+        let mut steps = 0u64;
+        let mut split_served = 0u32;
+        let end = loop {
+            let mut done = || handles.iter().all(|h| h.is_finished());
+            let mut released = false;
+            let split_done = handles[0].is_finished();
+            let mut choose = |pend: &[PendingInfo]| -> Choice {
+                if released {
+                    return Choice::Stop;
+                }
+                // the updater's wait is only released once the split got that far (or is over)
+                let cands: Vec<&PendingInfo> = pend
+                    .iter()
+                    .filter(|p| match p.desc.path.strip_prefix("updater:wait:") {
+                        Some(k) => split_done || split_served >= k.parse::<u32>().unwrap_or(0),
+                        None => true,
+                    })
+                    .collect();
+                if cands.is_empty() {
+                    // only the waiting updater is parked: the split is sleeping between phases
+                    return Choice::Wait(std::time::Duration::from_secs(2));
+                }
+                released = true;
+                let sv = if pos < case.schedule.len() { case.schedule[pos] } else { ((pos as u32 * 7919) % 65521) as u16 };
+                pos += 1;
+                let pick = cands[pick_idx(sv, cands.len())];
+                if pick.desc.node != UPDATER {
+                    split_served += 1;
+                }
+                Choice::Release(pick.id, Decision::Proceed)
+            };
+            let e = drive(&core, &mut done, &mut choose, 4).await;
+            steps += 1;
+            observe(&mut seen, w.md(97).get_shard_metadata(OLD).await.ok().flatten());
+            if e == DriveEnd::Done {
+                break DriveEnd::Done;
+            }
+            if e == DriveEnd::Stuck || steps > 20000 {
+                break DriveEnd::Stuck;
+            }
+        };
+        out.count("requests_scheduled", steps);
+        if end != DriveEnd::Done {
+            handles.iter().for_each(|h| h.abort());
+            out.set_fail("split-or-updater-did-not-finish", format!("{:?} after {} steps; split attempts: {:?}", end, steps, split_log.lock()));
+            return out;
+        }
+        for h in handles {
+            if let Err(e) = h.await {
+                if e.is_panic() {
+                    out.set_fail("writer-panic", take_last_panic().unwrap_or_default());
+                    return out;
+                }
+            }
+        }
+        core.set_scheduled(false);
+        let committed = committed.lock().clone();
+        let split_log = split_log.lock().clone();
+        // ---- oracle over the history of the old shard's record ----
+        let mut markers_seen: Vec<String> = Vec::new();
+        for i in 1..seen.len() {
+            let (p, n) = (&seen[i - 1], &seen[i]);
+            if n.generation != p.generation + 1 {
+                out.set_fail("generation-not-raised-by-one", format!("old shard record went from generation {} to {} ({:?} -> {:?})", p.generation, n.generation, p, n));
+                return out;
+            }
+            if n.replicas != p.replicas {
+                let fresh = n.replicas.len() == 1 && n.replicas[0].starts_with("node-m") && !markers_seen.contains(&n.replicas[0]);
+                if !fresh {
+                    out.set_fail(
+                        "newer-record-overwritten-by-writer-acting-on-older-one",
+                        format!("generation {} -> {}: the replica assignment {:?} (written by the updater, acknowledged) was replaced by {:?}, which no writer set at this point - content based on an older generation was stored under a newer one; history {:?}; split attempts {:?}", p.generation, n.generation, p.replicas, n.replicas, seen, split_log),
+                    );
+                    return out;
+                }
+                markers_seen.push(n.replicas[0].clone());
+            }
+            if p.state == "PendingDeletion" && n.state != "PendingDeletion" {
+                out.set_fail("newer-record-overwritten-by-writer-acting-on-older-one", format!("generation {} -> {}: state went back from PendingDeletion to {}; history {:?}", p.generation, n.generation, n.state, seen));
+                return out;
+            }
+        }
+        if markers_seen != committed {
+            out.set_fail("acknowledged-update-not-in-history", format!("updates acknowledged to the updater: {:?}; assignments that ever appeared in the record: {:?}; history {:?}", committed, markers_seen, seen));
+            return out;
+        }
+        if let (Some(last), Some(fin)) = (committed.last(), seen.last()) {
+            if fin.replicas != vec![last.clone()] {
+                out.set_fail("newer-record-overwritten-by-writer-acting-on-older-one", format!("final record carries {:?}, last acknowledged assignment {:?}", fin.replicas, last));
+                return out;
+            }
+        }
+        let stale_hit = split_log.iter().any(|e| e.contains("StaleGeneration"));
+        if stale_hit {
+            out.class("cut-over-rejected-as-stale");
+        }
+        if split_log.last().map(|s| s == "ok").unwrap_or(false) {
+            out.class("split-finished");
+        }
+        if !committed.is_empty() && seen.last().map(|o| o.state == "PendingDeletion").unwrap_or(false) {
+            out.class("update-and-deactivation-both-in-history");
+        }
+        out.nontrivial = !committed.is_empty() && seen.iter().any(|o| o.state == "PendingDeletion");
+        out
+    })
+}
+
 fn op() -> impl Strategy<Value = Op> {
     (0u8..2, 0u8..3, prop_oneof![2 => (0u8..5).prop_map(Exp::Abs), 3 => (-1i8..=1).prop_map(Exp::Read), 2 => Just(Exp::Read(0))]).prop_map(|(shard, state, exp)| Op { shard, state, exp })
 }
@@ -425,7 +654,7 @@ pub fn def() -> PropDef {
     PropDef {
         id: "C13",
         level: "exploration",
-        rule: "s3: 2-5 ObjectStoreMetadataClients each issuing 1-3 update_shard_metadata(shard of 2, state, expected in {absolute 0..4, read-current + {-1,0,+1}}) interleaved at object-store-request granularity (schedule + victim bias), shards pre-advanced to generation 0-3; non-trivial = two ops of different clients with the same (shard, expected) had overlapping request windows. local: sequential histories vs a generation model (non-trivial = a stale update was rejected after the shard reached generation >=2) plus a sampled multi-thread race (thorough). router: update/invalidate/moved sequences vs model (non-trivial = a stale update was rejected).",
+        rule: "s3: 2-5 ObjectStoreMetadataClients each issuing 1-3 update_shard_metadata(shard of 2, state, expected in {absolute 0..4, read-current + {-1,0,+1}}) interleaved at object-store-request granularity (schedule + victim bias), shards pre-advanced to generation 0-3; non-trivial = two ops of different clients with the same (shard, expected) had overlapping request windows. local: sequential histories vs a generation model (non-trivial = a stale update was rejected after the shard reached generation >=2) plus a sampled multi-thread race (thorough). router: update/invalidate/moved sequences vs model (non-trivial = a stale update was rejected). split-writer: the production writer of shard records - a real ShardSplitter split (then resumes) on either back-end - scheduled request by request against a correct updater on another node that re-assigns the old shard's replicas 1-3 times (read, modify, write under the generation read, re-read on a stale rejection) at generated positions of the split's time line; the old shard's record is observed after every step: generation rises by exactly one per version, a replica assignment only ever changes to a fresh acknowledged one (never back: that is content based on an older generation stored under a newer one), PendingDeletion is never undone, every acknowledged update appears, the final record carries the last acknowledged assignment; non-trivial = an update was acknowledged and the old shard was deactivated in the same history.",
         assumptions: &[
             "SimStore conforms to conditional-write semantics",
             "LocalMetadataClient under real threads is only sampled (no control over OS thread interleaving)",
@@ -433,6 +662,16 @@ pub fn def() -> PropDef {
         subs: || {
             vec![
                 Box::new(Sub::<Case> { name: "s3-race", cases: |t| t.scale(300_000, 6), strategy: strategy_s3, exec: exec_s3 }),
+                Box::new(Sub::<WriterCase> {
+                    name: "split-writer",
+                    cases: |t| t.scale(2_500, 8),
+                    strategy: |_| {
+                        (crate::props::c14::dataset(1), prop::collection::vec((0u8..130).prop_map(|delay| Reassign { delay }), 1..4), prop::collection::vec(any::<u16>(), 0..160))
+                            .prop_map(|(data, updates, schedule)| WriterCase { data, updates, schedule })
+                            .boxed()
+                    },
+                    exec: exec_split_writer,
+                }),
                 Box::new(Sub::<LocalCase> {
                     name: "local-seq",
                     cases: |t| t.scale(150_000, 4),
